@@ -891,13 +891,13 @@ func clExplore(c *mc.Ctx, cfg clConfig, prefix []int, pairs bool) {
 	clReport(c, cfg, x)
 	c.Add("cluster_block_fetches_served", x.fetches)
 	c.Add("cluster_snapshot_messages", x.snaps)
-	if !pairs || !clFaultClass(x.points[len(prefix)-1].options[prefix[len(prefix)-1]]) {
+	if !pairs || (!cfg.solo && !clFaultClass(x.points[len(prefix)-1].options[prefix[len(prefix)-1]])) {
 		return
 	}
 	for i := len(prefix); i < len(x.points); i++ {
 		for alt := 1; alt < len(x.points[i].options); alt++ {
-			if !clFaultClass(x.points[i].options[alt]) {
-				continue
+			if !cfg.solo && !clFaultClass(x.points[i].options[alt]) {
+				continue // the solo system is small: every pair of deviations is explored
 			}
 			if c.Expired("cluster pairs") {
 				return
@@ -978,7 +978,7 @@ func init() {
 				clReport(c, cfg, a)
 				return
 			}
-			clExplore(c, cfg, k.prefix, c.Tier == "thorough")
+			clExplore(c, cfg, k.prefix, c.Tier == "thorough" || cfg.solo)
 			c.Add("cluster_first_deviations", 1)
 		}}
 	Replayers["c20.cluster"] = func(c *mc.Ctx, r map[string]interface{}) {
